@@ -29,6 +29,9 @@ pub fn gen_simcfg(r: &mut Rng) -> SimCfg {
     // the wall clock (what chrono reads: time stamps, reported durations) may be set back while a batch runs
     c.wall_step_rate = *r.pick(&[0.0, 0.0, 0.0, 0.01, 0.1, 0.5]);
     c.wall_step_ns = *r.pick(&[1_000u64, 1_000_000_000, 3_600_000_000_000, 86_400_000_000_000]) + r.below(1000);
+    // between two run() calls on one application nothing, an hour or a day passes; a clock read costs up to 10 ms
+    c.idle_between_runs_ns = *r.pick(&[0u64, 0, 1_000_000_000, 3_600_000_000_000, 86_400_000_000_000]);
+    c.clock_tick_ns = *r.pick(&[1_000u64, 1_000, 1_000, 1_000_000, 10_000_000]);
     if c.sched == SchedMode::PctSync {
         // synchronisation events are the whole point of this policy
         c.atomic_every = 1;
